@@ -344,7 +344,8 @@ def oracle_table(case):
         if "occupancy" in drop:
             for a in exp_atoms:
                 a["occ"] = None
-        text = atomtab.emit_cif(atoms4, "?", dialect={"drop": sorted(drop), "order": dia.get("order")})
+        text = atomtab.emit_cif(atoms4, "?", dialect={"drop": sorted(drop), "order": dia.get("order"),
+                                                     "label_seq": dia.get("label_seq") if ident != "label" else None})
         for mreq in [None] + (models if "pdbx_PDB_model_num" not in drop else []):
             s3 = read_text(text, "cif", mreq)
             out += compare_request(s3, exp_atoms, mreq, "cif-dialect")
@@ -464,7 +465,8 @@ def st_cases():
                                   "dialect": st.one_of(st.none(), st.fixed_dictionaries({
                                       "drop": st.lists(st.sampled_from(OPTIONAL_ITEMS), max_size=5, unique=True),
                                       "order": st.one_of(st.none(), st.integers(0, 10 ** 6)),
-                                      "identity": st.sampled_from(["both", "both", "auth", "label"])}))})
+                                      "identity": st.sampled_from(["both", "both", "auth", "label"]),
+                                      "label_seq": st.sampled_from([None, None, "author"])}))})
 
 
 # items of atom_site the residue-level reader documents as optional (it has a default or a fallback for each)
